@@ -3,7 +3,13 @@
 mod errtree;
 mod c05;
 mod c11;
+mod c12;
+mod wrappers_gen;
 mod c14;
+mod c15;
+mod gram;
+mod probes_gen;
+mod tok;
 
 use vfcommon::Args;
 
@@ -15,7 +21,9 @@ fn main() {
         "C03" => errtree::run(&args, errtree::Mode::Spans),
         "C05" => c05::run(&args),
         "C11" => c11::run(&args),
+        "C12" => c12::run(&args),
         "C14" => c14::run(&args),
+        "C15" => c15::run(&args),
         other => vfcommon::die(&format!("direct: no monitor for {other}")),
     };
     std::process::exit(code);
